@@ -110,3 +110,58 @@ pub fn ids(thorough: bool) -> Report {
     r.samples.push("\"build\" rejected as layer name, \"builds\" accepted".into());
     r
 }
+
+// C09 bounded stand-in, literal-macro path: the compile-time macros (`layer_name!`, `buildpack_id!`, `process_type!`,
+// `exec_d_program_output_key!`) are exercised by COMPILING small crates against the real libcnb-data (cargo check, offline, persistent
+// target dir under bounded/target/c09macro). Each crate first uses one macro kind with a valid literal and then the other kinds with
+// literals that are valid for the FIRST kind but not for their own: every one of them must be rejected at compile time.
+pub fn macros(_thorough: bool) -> Report {
+    use std::process::Command;
+    let mut r = Report::new(
+        "cargo check (offline) of generated crates against the real libcnb-data: one crate with valid literals for all four literal macros in both orders (must compile); per macro kind K one crate that expands K first with a valid literal and then the other kinds with literals that K's grammar accepts but their own grammar rejects (reserved names, '/', '_', '.', spaces): every such invocation must be a compile error naming the literal; non-trivial = the rejecting crates",
+        "4 macro kinds as first expansion x 3-5 invalid literals of the other kinds",
+    );
+    let base = std::path::Path::new(env!("CARGO_MANIFEST_DIR")).join("target/c09macro");
+    let krate = base.join("crate"); std::fs::create_dir_all(krate.join("src")).unwrap();
+    std::fs::write(krate.join("Cargo.toml"), "[package]\nname = \"macrocheck\"\nversion = \"0.0.0\"\nedition = \"2021\"\n[dependencies]\nlibcnb-data = { path = \"/repo/libcnb-data\" }\n[workspace]\n").unwrap();
+    std::fs::write(krate.join("Cargo.lock"), std::fs::read("/repo/Cargo.lock").unwrap()).unwrap();
+    let check = |src: &str| -> (bool, String) {
+        std::fs::write(krate.join("src/lib.rs"), src).unwrap();
+        let out = Command::new("cargo").args(["check", "--offline", "--lib", "--message-format=short"]).current_dir(&krate).env("CARGO_NET_OFFLINE", "true").env("CARGO_TARGET_DIR", base.join("target")).output().unwrap();
+        (out.status.success(), String::from_utf8_lossy(&out.stderr).to_string())
+    };
+    let valid = [("layer_name", "my layer/1"), ("buildpack_id", "heroku/ruby.1"), ("process_type", "web_1.a"), ("exec_d_program_output_key", "KEY_1-a")];
+    // ---- every kind with a valid literal, in both orders
+    {
+        r.evaluations += 1;
+        let mut src = String::from("#![allow(unused)]\n");
+        for (i, (m, v)) in valid.iter().chain(valid.iter().rev()).enumerate() { src.push_str(&format!("pub fn v{i}() {{ let _ = libcnb_data::{m}!(\"{v}\"); }}\n")); }
+        let (ok, err) = check(&src);
+        if !ok {
+            // a machine without a usable cargo / registry is not a statement about the code under test
+            if err.contains("no matching package") || err.contains("failed to select a version") || err.contains("could not find") && err.contains("registry") { eprintln!("harness: cargo cannot build the macro crates offline: {err}"); std::process::exit(3); }
+            r.violation("macro_accepts_valid", "valid literals are accepted by the literal macros (in any order of expansion)", src.clone(), "compiles".into(), err.chars().take(600).collect());
+            return r;
+        }
+    }
+    // ---- K first, then literals that K accepts and the other kinds reject
+    let invalid: [(&str, Vec<(&str, &str)>); 4] = [
+        ("layer_name", vec![("buildpack_id", "app"), ("buildpack_id", "a b"), ("process_type", "web worker"), ("process_type", "a/b"), ("exec_d_program_output_key", "A.B")]),
+        ("buildpack_id", vec![("layer_name", "build"), ("process_type", "a/b"), ("exec_d_program_output_key", "a.b"), ("exec_d_program_output_key", "a/b")]),
+        ("process_type", vec![("layer_name", "launch"), ("buildpack_id", "app"), ("buildpack_id", "a_b"), ("exec_d_program_output_key", "a.b")]),
+        ("exec_d_program_output_key", vec![("layer_name", "store"), ("buildpack_id", "sbom"), ("buildpack_id", "a_b")]),
+    ];
+    for (first, bad) in invalid.iter() {
+        r.evaluations += 1; r.nontrivial += 1;
+        let fv = valid.iter().find(|(m, _)| m == first).unwrap().1;
+        let mut src = format!("#![allow(unused)]\npub fn first() {{ let _ = libcnb_data::{first}!(\"{fv}\"); }}\n");
+        for (i, (m, v)) in bad.iter().enumerate() { src.push_str(&format!("pub fn bad{i}() {{ let _ = libcnb_data::{m}!(\"{v}\"); }}\n")); }
+        let (ok, err) = check(&src);
+        let accepted: Vec<String> = bad.iter().filter(|(_, v)| !err.contains(&format!("\\\"{v}\\\" is not a valid")) && !err.contains(&format!("\"{v}\" is not a valid"))).map(|(m, v)| format!("{m}!(\"{v}\")")).collect();
+        if ok || !accepted.is_empty() {
+            r.violation("macro_rejects_invalid", "a literal that its own grammar rejects is a compile error, whatever macro was expanded before it in the crate", format!("first expansion {first}!(\"{fv}\"), then {:?}", bad.iter().map(|(m, v)| format!("{m}!(\"{v}\")")).collect::<Vec<_>>()), "every one rejected at compile time".into(), format!("compiled: {ok}; not rejected: {accepted:?}; compiler output: {}", err.chars().take(400).collect::<String>()));
+        }
+    }
+    r.samples.push("after layer_name!(\"my layer/1\"): buildpack_id!(\"app\"), process_type!(\"web worker\"), exec_d_program_output_key!(\"A.B\") are compile errors".into());
+    r
+}
